@@ -120,21 +120,9 @@ func c02TailForgery(c *Ctx, up *world.Upstream) {
 					for i := range plain {
 						raw2[16+i] ^= plain[i] ^ plain2[i]
 					}
-					v2 := base64.URLEncoding.EncodeToString(raw2) + "|" + f[1] + "|" + f[2]
-					if len(v2) != len(joined) {
+					v2full := base64.URLEncoding.EncodeToString(raw2) + "|" + f[1] + "|" + f[2]
+					if len(v2full) != len(joined) {
 						c.Error("C02 forgery: length changed")
-						return
-					}
-					// same part boundaries as issued
-					var hdr []string
-					off := 0
-					for _, p := range parts {
-						hdr = append(hdr, fmt.Sprintf("%s_%d=%s", name, p.idx, v2[off:off+len(p.val)]))
-						off += len(p.val)
-					}
-					req2, err := (&world.Req{Method: "GET", Target: "/", Host: "app.example.com", Headers: [][2]string{{"Cookie", strings.Join(hdr, "; ")}}}).Parse()
-					if err != nil {
-						c.Error("C02 forgery: request: %v", err)
 						return
 					}
 					// control: the untouched parts load the issued session
@@ -147,25 +135,54 @@ func c02TailForgery(c *Ctx, up *world.Upstream) {
 						c.Error("C02 forgery: control load failed: %v", err)
 						return
 					}
-					c.Inc("evaluations")
-					c.Inc("crafted_tail_forgeries_tried")
-					c.Distinct("distinct_nontrivial", fmt.Sprintf("forgery|%d|%s|%d|%d", si, expire, tsz, pad))
-					got, lerr := verifSessionStore(px.P).Load(req2)
-					cs := map[string]any{"kind": "crafted-tail-forgery", "secret": si, "cookie_expire": expire, "parts": len(parts), "value_len": len(joined),
-						"issued_preferred_username": sess.PreferredUsername}
-					if lerr == nil && got != nil {
-						cs["loaded_preferred_username"] = got.PreferredUsername
-						if got.PreferredUsername != sess.PreferredUsername || got.Email != sess.Email || got.User != sess.User || got.AccessToken != sess.AccessToken {
-							c.Violate("C02/crafted-ciphertext-tail-edit-accepted",
-								fmt.Sprintf("a %d-part session cookie (%d characters) whose last cipher block was rewritten (last content byte and lz4 checksum, all past character %d of the value) is accepted as a session that was never issued: preferred_username %q instead of %q",
-									len(parts), len(joined), len(f[0])-24, got.PreferredUsername, sess.PreferredUsername), len(joined), cs)
-						} else {
-							c.Inc("crafted_tail_forgeries_accepted_same")
+					// the rewritten value with the genuine signature, and with what is left of a signature when
+					// the forger simply cuts it (a verifier that compares only as many bytes as it is shown)
+					for _, sv := range []struct{ name, sig string }{
+						{"genuine-signature", f[2]}, {"no-signature", ""}, {"first-character-of-signature", f[2][:1]},
+						{"first-half-of-signature", f[2][:len(f[2])/2]}, {"signature-minus-last-character", f[2][:len(f[2])-1]},
+						{"signature-minus-padding", strings.TrimRight(f[2], "=")},
+					} {
+						v2 := base64.URLEncoding.EncodeToString(raw2) + "|" + f[1] + "|" + sv.sig
+						// same part boundaries as issued (the last part takes what is left)
+						var hdr []string
+						off := 0
+						for pi, p := range parts {
+							end := off + len(p.val)
+							if end > len(v2) || pi == len(parts)-1 {
+								end = len(v2)
+							}
+							if off >= end {
+								break
+							}
+							hdr = append(hdr, fmt.Sprintf("%s_%d=%s", name, p.idx, v2[off:end]))
+							off = end
 						}
-					} else {
-						c.Inc("crafted_tail_forgeries_rejected")
+						req2, err := (&world.Req{Method: "GET", Target: "/", Host: "app.example.com", Headers: [][2]string{{"Cookie", strings.Join(hdr, "; ")}}}).Parse()
+						if err != nil {
+							c.Error("C02 forgery: request: %v", err)
+							return
+						}
+						c.Inc("evaluations")
+						c.Inc("crafted_tail_forgeries_tried")
+						c.Inc("crafted_tail_forgeries_" + sv.name)
+						c.Distinct("distinct_nontrivial", fmt.Sprintf("forgery|%d|%s|%d|%d|%s", si, expire, tsz, pad, sv.name))
+						got, lerr := verifSessionStore(px.P).Load(req2)
+						cs := map[string]any{"kind": "crafted-tail-forgery", "secret": si, "cookie_expire": expire, "parts": len(parts), "value_len": len(joined),
+							"issued_preferred_username": sess.PreferredUsername, "signature_presented": sv.name}
+						if lerr == nil && got != nil {
+							cs["loaded_preferred_username"] = got.PreferredUsername
+							if got.PreferredUsername != sess.PreferredUsername || got.Email != sess.Email || got.User != sess.User || got.AccessToken != sess.AccessToken {
+								c.Violate("C02/crafted-ciphertext-tail-edit-accepted:"+sv.name,
+									fmt.Sprintf("a %d-part session cookie (%d characters) whose last cipher block was rewritten (last content byte and lz4 checksum, all past character %d of the value), presented with %s, is accepted as a session that was never issued: preferred_username %q instead of %q",
+										len(parts), len(joined), len(f[0])-24, sv.name, got.PreferredUsername, sess.PreferredUsername), len(joined), cs)
+							} else {
+								c.Inc("crafted_tail_forgeries_accepted_same")
+							}
+						} else {
+							c.Inc("crafted_tail_forgeries_rejected")
+						}
+						c.Sample(2, cs)
 					}
-					c.Sample(2, cs)
 					done = true
 				}
 			}
